@@ -472,11 +472,15 @@ func execCase(t *testing.T, p *Prop, in interface{}, meta caseMeta, ch *chooser,
 			KnownHit: map[string]string{}, ArmSeed: meta.ArmSeed, ArmPct: meta.ArmPct, known: knownLookup(p.ID), tailScale: 40}
 		simrt.SoloDraw = cenv.ch.Draw
 		cenv.stop = &atomic.Bool{}
-		guard := time.AfterFunc(20*time.Second, func() { cenv.stop.Store(true) })
+		guard := time.AfterFunc(45*time.Second, func() { cenv.stop.Store(true) })
 		cf := p.Run(cloneInput(p, in), cenv)
 		guard.Stop()
 		simrt.SoloDraw = ch.Draw
-		if cf == nil || !cf.budgetVerdict {
+		if cf != nil && cf.budgetVerdict && cenv.stop.Load() {
+			// the confirmation run itself was cut by the wall-clock guard: too slow to tell on
+			// this machine at this load - inconclusive (a verdict must not depend on load)
+			cr.fail = &Failure{Clause: "", Msg: "no termination within the step budget; the confirmation run was cut by the 45 s wall-clock guard"}
+		} else if cf == nil || !cf.budgetVerdict {
 			cr.fail = &Failure{Clause: "", Msg: "no termination within the step budget, but the same execution ends when the fair tail is 40 times longer"}
 		} else {
 			env.Count("probe.no-termination-confirmed-with-40x-tail")
